@@ -194,6 +194,23 @@ class HImpl:
             r.uses(V[op['v']])
             self.recipes.append(r)
             return [r.results[V[op['v']].name]]
+        if k == 'recipe':
+            r = Recipe()
+            objs = [V[v] for v in op['uses']]
+            r.uses(*objs)
+            ref = lambda x: V[x['sl']] if 'sl' in x else objs[x['n']]
+            for st in op['steps']:
+                if st['op'] == 'transfer':
+                    r.transfer(ref(st['src']), ref(st['dst']), dsl.qty_str(st['q']))
+                elif st['op'] == 'remove':
+                    r.remove(ref(st['t']), self.d.what(st['w']))
+                elif st['op'] == 'fill':
+                    r.fill_to(ref(st['t']), self.subs[st['solvent']], dsl.qty_str(st['q']))
+                elif st['op'] == 'dilute':
+                    r.dilute(objs[st['n']], self.subs[st['solute']], dsl.conc_str(st['c']), self.subs[st['solvent']])
+            self.recipes.append(r)
+            res = r.bake()
+            return [res[o.name] for o in objs]
         raise KeyError(k)
 
     def step(self, op):
@@ -297,6 +314,19 @@ def coq_hop(op):
         return f"HSolFrom {op['src']} s{op['solute']} {dsl.coq_conc(op['c'])} s{op['solvent']} {dsl.coq_qty(op['q'])} {op['name']}"
     if k == 'uses':
         return f"HUses {op['v']}"
+    if k == 'recipe':
+        rr = lambda x: f"(HRS {x['sl']} {x['n']})" if 'sl' in x else f"(HRC {x['n']})"
+        steps = []
+        for st in op['steps']:
+            if st['op'] == 'transfer':
+                steps.append(f"RTransfer {rr(st['src'])} {rr(st['dst'])} {dsl.coq_qty(st['q'])}")
+            elif st['op'] == 'remove':
+                steps.append(f"RRemove {rr(st['t'])} {dsl.coq_what(st['w'])}")
+            elif st['op'] == 'fill':
+                steps.append(f"RFill {rr(st['t'])} s{st['solvent']} {dsl.coq_qty(st['q'])}")
+            else:
+                steps.append(f"RDilute {st['n']} s{st['solute']} {dsl.coq_conc(st['c'])} s{st['solvent']}")
+        return f"HRecipe {dsl.coq_list([str(v) for v in op['uses']])} {dsl.coq_list(steps)}"
     raise KeyError(k)
 
 
@@ -385,7 +415,7 @@ class HGen:
         self.stats[tag + (':ok' if o['ok'] else ':' + o['exc'])] = self.stats.get(tag + (':ok' if o['ok'] else ':' + o['exc']), 0) + 1
         old = any(v in self.superseded for v in operands)
         self.keys.add((op['op'], tuple(self.im.kinds[v] for v in operands), o['ok'] or o['exc'], old))
-        if o['ok'] and op['op'] not in ('slice', 'uses', 'newc', 'newp'):
+        if o['ok'] and op['op'] not in ('slice', 'uses', 'newc', 'newp', 'recipe'):
             for v in operands:
                 if self.im.kinds[v] != 's':
                     self.superseded.add(v)
@@ -636,6 +666,87 @@ class HGen:
         self.emit({'op': 'solfrom', 'src': v, 'solute': sid, 'c': {'s': 'M', 'v': gen.dec(cur * f, 3)}, 'solvent': lid, 'q': q,
                    'name': self.name()}, 'solfrom:' + ('high' if f > 1 else 'ok'), [v])
 
+    def recipe(self):
+        """a whole recipe as one call: uses(objects), steps written with the user's own objects and slices, bake; small amounts so that
+        every decision is far from a boundary, or one step that is far beyond (bake fails at that step)"""
+        rng = self.rng
+        cs, ps, names = [], [], set()
+        for v in rng.sample(range(len(self.im.vars)), len(self.im.vars)):
+            o, k = self.im.vars[v], self.im.kinds[v]
+            if k == 's' or o.name in names:
+                continue
+            if k == 'c' and len(cs) < 2 and o.volume > 500:
+                cs.append(v); names.add(o.name)
+            if k == 'p' and len(ps) < 2:
+                ps.append(v); names.add(o.name)
+        uses = cs + ps
+        if not cs or len(uses) < 2:
+            return
+        objs = [self.im.vars[v] for v in uses]
+        idx = {v: i for i, v in enumerate(uses)}
+        slices = [(v, i) for v, k in enumerate(self.im.kinds) if k == 's' for i, o in enumerate(objs)
+                  if self.im.kinds[uses[i]] == 'p' and self.im.vars[v].plate.name == o.name and self.im.vars[v].plate.wells.shape == o.wells.shape]
+
+        def plate_ref(i):
+            cand = [v for v, j in slices if j == i]
+            if cand and rng.random() < 0.7:
+                return {'sl': rng.choice(cand), 'n': i}
+            return {'n': i}
+
+        def wells_of(ref):
+            p = objs[ref['n']]
+            return list(p[self.im.vars[ref['sl']].item].get().flatten()) if 'sl' in ref else list(p.wells.flatten())
+        steps, touched = [], set()
+        fail_at = rng.randrange(5) if rng.random() < 0.3 else None
+        for k in range(rng.randint(2, 5)):
+            src = rng.choice(cs)
+            huge = fail_at == k
+            kind = rng.choice(['c->p', 'c->p', 'p->c', 'c->c', 'remove', 'fill', 'dilute'])
+            if kind == 'c->p' and ps:
+                r = plate_ref(idx[rng.choice(ps)])
+                ws = wells_of(r)
+                cap = ws[0].max_volume
+                if not ws or any(w.volume > 0.4 * cap for w in ws) or objs[idx[src]].volume < 400:
+                    continue
+                q = {'v': '1', 'p': '', 'b': 'L'} if huge else {'v': str(rng.choice([2, 3, 5])), 'p': 'u', 'b': 'L'}
+                steps.append({'op': 'transfer', 'src': {'n': idx[src]}, 'dst': r, 'q': q})
+                touched |= {idx[src], r['n']}
+            elif kind == 'p->c' and ps:
+                r = plate_ref(idx[rng.choice(ps)])
+                ws = wells_of(r)
+                if not ws or any(w.volume < 30 for w in ws) or r['n'] in touched:
+                    continue
+                q = {'v': '1', 'p': '', 'b': 'L'} if huge else {'v': '2', 'p': 'u', 'b': 'L'}
+                steps.append({'op': 'transfer', 'src': r, 'dst': {'n': idx[src]}, 'q': q})
+                touched |= {idx[src], r['n']}
+            elif kind == 'c->c' and len(cs) == 2:
+                a, b = cs if rng.random() < 0.5 else cs[::-1]
+                A, B = objs[idx[a]], objs[idx[b]]
+                if B.max_volume != float('inf') and B.volume > 0.8 * B.max_volume:
+                    continue
+                q = {'v': '1000', 'p': '', 'b': 'L'} if huge else {'v': '4', 'p': 'u', 'b': 'L'}
+                steps.append({'op': 'transfer', 'src': {'n': idx[a]}, 'dst': {'n': idx[b]}, 'q': q})
+                touched |= {idx[a], idx[b]}
+            elif kind == 'remove':
+                t = plate_ref(idx[rng.choice(ps)]) if ps and rng.random() < 0.6 else {'n': idx[src]}
+                if t['n'] in touched and self.im.kinds[uses[t['n']]] == 'c':
+                    continue
+                steps.append({'op': 'remove', 't': t, 'w': rng.choice([{'k': 'Solid'}, {'s': rng.choice(self.subs)['id']}])})
+                touched.add(t['n'])
+            elif kind == 'fill' and idx[src] not in touched:
+                c = objs[idx[src]]
+                target = c.volume * 1.3 + 200
+                if c.max_volume != float('inf') and target > 0.9 * c.max_volume:
+                    continue
+                steps.append({'op': 'fill', 't': {'n': idx[src]}, 'solvent': rng.choice(self.liquids),
+                              'q': gen.pick_qty(rng, target / 1e6, 'L', sig=3, down=True)})
+                touched.add(idx[src])
+        for i in range(len(uses)):        # bake refuses while a declared object is unused
+            if i not in touched:
+                steps.append({'op': 'remove', 't': {'n': i}, 'w': {'k': 'Enzyme'}})
+        operands = uses + [s[k]['sl'] for s in steps for k in ('src', 'dst', 't') if k in s and 'sl' in s[k]]
+        self.emit({'op': 'recipe', 'uses': uses, 'steps': steps}, 'recipe' + (':sabotaged' if fail_at is not None and fail_at < len(steps) else ''), operands)
+
     def uses(self):
         v = self.pick('cp')
         if v is not None:
@@ -644,7 +755,7 @@ class HGen:
     def run(self, n):
         self.setup()
         acts = [(self.new_slice, 2), (self.t_c_to_c, 2), (self.t_c_to_s, 4), (self.t_s_to_c, 3), (self.t_s_to_s, 4), (self.remove, 1.5),
-                (self.fill, 2.5), (self.dilute, 1), (self.solfrom, 0.7), (self.uses, 0.5)]
+                (self.fill, 2.5), (self.dilute, 1), (self.solfrom, 0.7), (self.uses, 0.5), (self.recipe, 1.5)]
         tries = 0
         while len(self.ops) < n and tries < 6 * n:
             tries += 1
